@@ -471,8 +471,8 @@ func trunc(s string) string {
 }
 
 func Run(r *mon.Run) {
-	r.Rule = "in-process sessions: one broker logging through a real slog JSON handler whose every Write is recorded; 1-4 shell generations (uni/bidirectional, four writer kinds) with lock-step input lines and output chunks made of quotes, backslashes, newlines, control bytes, U+2028/9, invalid UTF-8, JSON look-alikes and long runs, interleaved with attempts that must be refused, ended by EOF, error, cancel, failing write or failing flush; after a marker line the log is decoded strictly line by line and paired one-to-one, in order, with the deliveries recorded by the harness writers (write+flush) and the operator channel (Plain chunks); admitted streams (reached the release hook) need one connect and one disconnect record, refused ones one error record naming a reason. Real-binary sessions: the -log file of the -race binary after a pty session with fake shells is decoded strictly and the session is reconstructed from it alone and compared with ground truth. distinct = distinct session scripts"
-	r.Assumptions = []string{"expected record data = delivered bytes with every invalid UTF-8 byte replaced by U+FFFD", "output data of the real binary is compared by concatenation because TLS/HTTP chunking is not under the client's control"}
+	r.Rule = "in-process sessions: one broker logging through a real slog JSON handler whose every Write is recorded; 1-4 shell generations (uni/bidirectional, four writer kinds) with lock-step input lines and output chunks made of quotes, backslashes, newlines, control bytes, U+2028/9, invalid UTF-8, JSON look-alikes and long runs, interleaved with attempts that must be refused, ended by EOF, error, cancel, failing write or failing flush; after a marker line the log is decoded strictly line by line and paired one-to-one, in order, with the deliveries recorded by the harness writers (write+flush) and the operator channel (Plain chunks); admitted streams (reached the release hook) need one connect and one disconnect record, refused ones one error record naming a reason. Real-binary sessions: the -log file of the -race binary after a pty session with fake shells is decoded strictly and the session is reconstructed from it alone and compared with ground truth. Log file over several runs (engine logfile): 2-4 runs of the -race binary against the SAME file (named by -log or CURLREVSHELL_LOG), which before the first run is absent, empty, or holds short or long foreign content with or without a final newline; somebody else may append to it between runs and cuts it while the program runs and is at rest (to nothing, to a line boundary, in the middle of a line, copy-then-truncate); after every run and before every cut the bytes the file held before must be an unchanged prefix and what follows must be nothing but one-line JSON objects from which exactly the harness's own streams, refusals, lines and output of that stretch are reconstructed. Clients that give up early (engine aborts): in-process server on real TLS, rounds of 40 clients, each from its own loopback address, for /io, /io/, /io/x, /i/id and /o/id, which get as far as the TCP connection, a (partial) ClientHello, the finished handshake, part of the request header, the whole header, header and a chunk, header and part of a chunk, or header and the server's answer, and then reset (SO_LINGER 0), close, close the TLS session or half-close, with nobody, a bidirectional or a two-connection shell attached; once the server has finished with every connection (sentinel request answered and no connection-serving goroutine left) every client the program demonstrably handled (the operator got a notice '[address] ...' about it, a record exists, or it got the handler's answer) must have, for each direction of its request, one connect and one disconnect record or an error record naming the reason, output records holding no more than a prefix of what it sent, and no input records. distinct = distinct session scripts / log-file histories / (target, stage, ending, occupant) combinations"
+	r.Assumptions = []string{"expected record data = delivered bytes with every invalid UTF-8 byte replaced by U+FFFD", "output data of the real binary is compared by concatenation because TLS/HTTP chunking is not under the client's control", "the log file is append-only JSON lines (the statement's 'log file' state): content that was in the file before a run, or that was left after somebody cut the file while the program was at rest, is not the program's to change, and records written afterwards follow it directly", "a client of the aborts engine that left neither a notice nor a record and got no answer is taken as never handled (its reset can beat the request) and nothing is demanded of it; whether a header flush actually fails is up to the kernel's timing, so that branch has a floor far below the usual count", "the aborts engine decides quiescence by looking at this process's goroutines (those started by net/http.(*Server).Serve): only that engine runs an HTTP server in the harness process, one at a time"}
 	n := r.N(300, 6000)
 	if r.WantEngine("session") {
 		mon.Parallel(n, runtime.NumCPU(), func(i int) {
@@ -484,8 +484,14 @@ func Run(r *mon.Run) {
 	if r.WantEngine("refusals") {
 		refusalRecords(r)
 	}
+	if r.WantEngine("aborts") {
+		abortingClients(r)
+	}
 	if r.WantEngine("binary") {
 		binarySessions(r)
+	}
+	if r.WantEngine("logfile") {
+		logFileRuns(r)
 	}
 	r.Floor("json_lines", 2000)
 	r.Floor("input_deliveries", 500)
